@@ -31,6 +31,15 @@ I = [
     ['preamble', {'text': 'x', 'mimetype': 'text/html'}],
     ['preamble', {'text': 'é', 'encoding': 'ascii'}],
     ['preamble', {'text': 'x', 'encoding': 'no-such-codec'}],
+    ['preamble', {'text': 'x', 'encoding': 'rot13', 'indent': 0}],
+    ['preamble', {'text': 'lone\udc80', 'encoding': 'utf-8'}],
+    ['preamble', {'text': '\udcff', 'encoding': 'latin-1', 'indent': 0}],
+    ['preamble', {'text': '\ud800', 'encoding': 'utf-16'}],
+    ['preamble', {'text': '中', 'encoding': 'cp1252'}],
+    ['meta', {'metadata': {'k': 1}, 'encoding': 'rot13'}],
+    ['meta', {'metadata': {'k': 1}, 'encoding': 'hex'}],
+    ['diff', {'content': b'x\n', 'encoding': 'base64'}],
+    ['diff', {'content': b'x\n', 'line_endings': 'mac'}],
     ['meta', {'metadata': [1]}],
     ['meta', {'metadata': {}}],
     ['meta', {'metadata': {'k': UNSER}}],
@@ -170,7 +179,7 @@ def run_case(case, st):
 
 # -- exhaustive ---------------------------------------------------------
 
-BOUNDS = {'quick': (8, 4), 'thorough': (10, 5)}
+BOUNDS = {'quick': (8, 3), 'thorough': (10, 4)}
 
 
 def chunks(tier, seed):
@@ -276,13 +285,15 @@ def checks():
             'exhaustive', chunks, run_chunk, run_case=run_case,
             rule='all call sequences over the 5 operations with valid '
                  'arguments up to length LV, and all sequences over 10 valid '
-                 '+ 13 invalid-argument variants up to length LA; per step: '
+                 '+ 22 invalid-argument variants (wrong types, empty content, '
+                 'bad option values, unencodable text incl. lone surrogates, '
+                 'unknown and non-text codecs) up to length LA; per step: '
                  'accepted iff the section may follow (my table) and the '
                  'arguments are valid, rejected calls leave the stream '
                  'byte-identical, accepted ones append; at the end bytes == '
                  'reference serialisation of the accepted calls only; '
                  'non-trivial = a rejection followed by an acceptance',
-            bound={'quick': 'LV = 8, LA = 4', 'thorough': 'LV = 10, LA = 5'}),
+            bound={'quick': 'LV = 8, LA = 3', 'thorough': 'LV = 10, LA = 4'}),
         HypCheck(
             'random', strategy, run_case,
             budget={'quick': (8, 120), 'thorough': (16, 6000)},
